@@ -57,7 +57,9 @@ pub fn trace_one(op: &str) {
 }
 
 /// child: N threads start from a barrier and run a mix of operations; prints one line per call
-pub fn stress_one(threads: usize, seed: u64, warm: bool, calls: usize) {
+pub fn stress_one(threads: usize, seed: u64, warm: bool, calls: usize) { stress_one_focus(threads, seed, warm, calls, None) }
+
+pub fn stress_one_focus(threads: usize, seed: u64, warm: bool, calls: usize, forced_focus: Option<String>) {
     let es = Arc::new(sample_envelopes_sendable());
     if warm { for op in OPS { let _ = run_op_bytes(op, &es[0]); } }
     if seed % 4 == 1 {
@@ -72,6 +74,13 @@ pub fn stress_one(threads: usize, seed: u64, warm: bool, calls: usize) {
     // in some runs thread 0 is an application that keeps adding its own tags to the shared context and formats values
     // carrying them, while the other threads (re-)register the standard tags and format: what it wrote must stay written
     let writer = seed % 4 == 2 || seed % 4 == 3;
+    // first-use races (never in warmed-up runs): one thread sits on the known-values guard while the others make their first
+    // formatting call; or every thread starts with the same operation, so that several threads race on one lazy's first use
+    let holder = !warm && threads >= 2 && seed % 8 == 4;
+    let focus: Option<&'static str> = match &forced_focus {
+        Some(f) => OPS.iter().find(|o| **o == f.as_str()).copied(),
+        None => if !warm && (seed % 8 == 5 || seed % 8 == 0) { Some(OPS[((seed / 8) % OPS.len() as u64) as usize]) } else { None },
+    };
     for t in 0..threads {
         let (es, barrier) = (es.clone(), barrier.clone());
         hs.push(std::thread::spawn(move || {
@@ -85,9 +94,21 @@ pub fn stress_one(threads: usize, seed: u64, warm: bool, calls: usize) {
                 }
                 return out;
             }
-            for _ in 0..calls {
-                // next to a writer, registration is what races with it
-                let op = if writer && rng.chance(1, 2) { "register_tags" } else { OPS[rng.below(OPS.len())] };
+            if holder && t == threads - 1 {
+                // an application thread that does a batch of known-value lookups under one guard, right at first use
+                let r = std::panic::catch_unwind(|| {
+                    let g = known_values::KNOWN_VALUES.get();
+                    let store = g.as_ref().unwrap();
+                    let mut n = 0usize;
+                    for _ in 0..200 { n += store.name(known_values::NOTE).len() + store.name(known_values::IS_A).len(); }
+                    std::thread::sleep(std::time::Duration::from_millis(40));
+                    n
+                });
+                out.push(match r { Ok(_) => format!("note {} held-known-values-guard", t), Err(_) => format!("panic {} kv-holder 0", t) });
+            }
+            for call in 0..calls {
+                // next to a writer, registration is what races with it; in "focus" runs every thread's first call is the same operation
+                let op = if call == 0 && focus.is_some() { focus.unwrap() } else if writer && rng.chance(1, 2) { "register_tags" } else { OPS[rng.below(OPS.len())] };
                 let i = rng.below(es.len());
                 let r = std::panic::catch_unwind(|| run_op_bytes(op, &es[i]));
                 match r { Ok(text) => out.push(format!("call {} {} {} {:016x}", t, op, i, fnv(&text))), Err(_) => out.push(format!("panic {} {} {}", t, op, i)) }
@@ -114,6 +135,9 @@ fn custom_round(k: usize) -> bool {
 fn sample_envelopes_sendable() -> Vec<Vec<u8>> { sample_envelopes().iter().map(|e| e.tagged_cbor().to_cbor_data()).collect() }
 
 fn run_op_bytes(op: &str, b: &[u8]) -> String {
+    // the registry lookups do not look at the envelope: no decoding in front of them, so that threads released together really
+    // arrive at the lazy together
+    if matches!(op, "kv_name" | "fn_name" | "param_name" | "register_tags") { return run_op(op, &Envelope::new(0)); }
     // NOTE: decoding takes dcbor's GLOBAL_TAGS lock briefly (Envelope::cbor_tags) - part of the mix
     let e = Envelope::from_tagged_cbor_data(b).unwrap();
     run_op(op, &e)
@@ -155,15 +179,19 @@ pub fn campaign(outdir: &str, seed: u64, thorough: bool) {
     let table = |reg: &str| -> std::collections::HashSet<String> { spawn_self(&["c20-expected-one".into(), reg.into()], Duration::from_secs(60)).unwrap_or_default().lines().map(|l| l.to_string()).collect() };
     let (before, after) = (table("0"), table("1"));
     let mut rng = crate::rng::Rng::new(seed);
-    let rounds = if thorough { 200 } else { 24 };
+    let rounds = if thorough { 400 } else { 48 };
     let (mut runs, mut calls_checked, mut mismatches, mut timeouts, mut panics) = (0u64, 0u64, vec![], vec![], vec![]);
     let mut samples = vec![];
     if before.is_empty() || after.is_empty() { panics.push("could not compute the sequential reference tables".to_string()); }
-    for r in 0..rounds {
-        let threads = [2usize, 3, 4, 8, 16][r % 5];
-        let warm = r % 3 == 2;
-        let s = rng.next();
-        let args: Vec<String> = vec!["c20-stress-one".into(), threads.to_string(), s.to_string(), (warm as u8).to_string(), "12".into()];
+    // first the systematic part: for every operation, fresh processes in which all threads make that operation their very first
+    // call (several threads race on the first use of one lazy); then the random mixes
+    let mut plan: Vec<(usize, bool, u64, Option<String>)> = vec![];
+    let reps = if thorough { 12 } else { 3 };
+    for op in OPS { for rep in 0..reps { for threads in [2usize, 8] { let _ = rep; plan.push((threads, false, rng.next() | 7, Some(op.to_string()))); } } }
+    for r in 0..rounds { plan.push(([2usize, 3, 4, 8, 16][r % 5], r % 3 == 2, rng.next(), None)); }
+    for (threads, warm, s, focus) in plan {
+        let mut args: Vec<String> = vec!["c20-stress-one".into(), threads.to_string(), s.to_string(), (warm as u8).to_string(), "12".into()];
+        if let Some(f) = &focus { args.push(f.clone()); }
         runs += 1;
         let mut res = spawn_self(&args, Duration::from_secs(60));
         if matches!(res, Err(ref e) if e == "timeout") {
